@@ -7,12 +7,13 @@ CONSTANT MaxPipe
 Firsts == {"connect_valid", "connect_unknown_object", "connect_bad_payload", "connect_unknown_serializer",
            "type_invoke", "type_result", "type_ping", "type_connectok", "type_connectfail", "type_zero", "type_unknown",
            "garbage", "bad_version", "bad_magic", "oversized", "truncated", "empty"}
-Validators == {"accept", "return:None", "return:False", "return:0", "return:list", "raise:ValueError", "raise:KeyError",
+\* return:lock - the validator accepts but hands back something no serializer can encode: the handshake cannot be completed
+Validators == {"accept", "return:None", "return:False", "return:0", "return:list", "return:lock", "raise:ValueError", "raise:KeyError",
                "raise:SecurityError", "raise:ConnectionClosedError", "raise:PyroError", "raise:TimeoutError"}
 PipeItems == {"invoke_target", "invoke_daemon", "oneway_target", "batch_target", "getattr_target"}
 Returns(v) == v = "accept" \/ SubSeq(v, 1, 7) = "return:"
 DefinedTypes == {"type_invoke", "type_result", "type_ping", "type_connectok", "type_connectfail"}
-Accept(f, v) == f = "connect_valid" /\ Returns(v)
+Accept(f, v) == f = "connect_valid" /\ Returns(v) /\ v # "return:lock"
 \* the validator is consulted for a decodable CONNECT payload only
 MustReason(f, v) == \/ f \in DefinedTypes
                     \/ f \in {"connect_valid", "connect_unknown_object"} /\ ~Returns(v) /\ v # "raise:ConnectionClosedError"
